@@ -25,7 +25,7 @@ def box_slices(rng, shape, max_len=4):
 def put_object(rng, arr, label, kind=None):
     """draw one object with `label` into arr (may overwrite)"""
     shape = arr.shape
-    kind = kind or rng.choice(["box", "box", "voxel", "line", "diag", "L", "border"])
+    kind = kind or rng.choice(["box", "box", "voxel", "line", "diag", "L", "border", "ring"])
     if kind == "voxel":
         idx = tuple(rng.randrange(n) for n in shape)
         arr[idx] = label
@@ -47,6 +47,12 @@ def put_object(rng, arr, label, kind=None):
     elif kind == "L":
         arr[box_slices(rng, shape, 3)] = label
         arr[box_slices(rng, shape, 3)] = label
+    elif kind == "ring":
+        sl = box_slices(rng, shape, 6)
+        arr[sl] = label
+        inner = tuple(slice(s.start + 1, s.stop - 1) for s in sl)
+        if all(i.stop > i.start for i in inner):
+            arr[inner] = 0
     elif kind == "border":
         ax = rng.randrange(len(shape))
         idx = [slice(None)] * len(shape)
